@@ -191,9 +191,9 @@ def _kernspecial(g, scale):
                             g.count("kspecial:resetTo")
     # resetTo with arguments that stop just short of / exactly at the end of the chunk, on dirty scratch containers
     for last in (CH - 1, CH - 2, CH - 3, CH - 64, CH - 65, 4096, 100):
-        dirty = render(g, [(0, CH - 1)] if r.random() < 0.5 else ivs_union(rand_set(g), [(CH - 70, CH - 1)]), "B")
-        if not dirty.startswith("B:"):
-            continue
+        # a dirty scratch bitmap container (more than 4096 values so that it IS a bitmap container) with the top of the chunk set
+        dirty = render(g, [(0, CH - 1)] if r.random() < 0.5 else ivs_union(rand_set(g), [(CH - 5000, CH - 1)]), "B")
+        assert dirty.startswith("B:")
         first = r.choice([0, 1, 63, 64, max(0, last - 5000)])
         arg = [(min(first, last), last)]
         if r.random() < 0.5 and first > 10:
